@@ -5,7 +5,7 @@
     arithmetic GENERATED from the current Python source; it returns (outcome, number of calls, sleeps in ms).
     Everything is quantified over all exception types [E], all classifier functions [lim], [rate], [trans]
     (is_limited_retries_error / is_rate_limit_error / is_transient_error), all scripts and all random sources. *)
-From HailV Require Import Common.Prelude Retry.Model Retry.Inst Retry.Lemmas.
+From HailV Require Import Common.Prelude Retry.Model Retry.Inst Retry.Chain Retry.Lemmas Retry.LemmasChain.
 From HailG Require C21.Gen.
 Open Scope Z_scope.
 
@@ -116,3 +116,51 @@ Theorem C21_ceiling_exponential :
   ceiling_ms cap (tries + 1) base = 2 * ceiling_ms cap tries base.
 Proof. exact ceiling_doubles. Qed.
 Print Assumptions C21_ceiling_exponential.
+
+(** * Chained exceptions: [__cause__] versus [__context__]  (Retry/Chain.v)
+
+    An exception object is [Exn kind cause context suppress_context]; is_limited_retries_error and is_transient_error are
+    [classify own]: the tests on the object itself ([own kind = Some b]: decided; [None]: fall through) followed by the
+    chain-following tail, which is REGENERATED from the current source. *)
+
+(** The tail of both classifiers in the current source follows [__cause__] and nothing else. *)
+Theorem C21_classifier_tails_follow_cause_only :
+  forall (K : Type) (own : K -> option bool) (e : exn K),
+  classify own e = match own (kind_of e) with Some b => b
+                   | None => C21.Gen.is_limited_retries_error_tail cause_of context_of (classify own) e end
+  /\
+  classify own e = match own (kind_of e) with Some b => b
+                   | None => C21.Gen.is_transient_error_tail cause_of context_of (classify own) e end.
+Proof. intros K own e. split; [apply gen_limited_tail_eq | apply gen_transient_tail_eq]. Qed.
+Print Assumptions C21_classifier_tails_follow_cause_only.
+
+(** Hence a classifier depends on an exception only through the kinds along its [__cause__] chain: whatever hangs off a
+    [__context__] link — the error that was being handled when this one was raised, implicitly, with [from None] or with
+    [from X] — and the suppress flag never matter, at any depth. *)
+Theorem C21_classification_ignores_context :
+  forall (K : Type) (own : K -> option bool) (e e' : exn K),
+  cause_chain e = cause_chain e' -> classify own e = classify own e'.
+Proof. exact @classify_same_chain. Qed.
+Print Assumptions C21_classification_ignores_context.
+
+(** ... and so does the whole retry loop: for every script of chained exceptions, every [own] tests, every random source,
+    the outcome, the number of calls and every sleep are those of the script with all [__context__] links erased. *)
+Theorem C21_loop_ignores_context :
+  forall (K : Type) (ownL ownT : K -> option bool) (rateK : K -> bool) (draw : Z -> Z -> Z) (evs evs' : list (@event (exn K))),
+  Forall2 same_causes evs evs' ->
+  loop_x ownL ownT rateK draw evs = loop_x ownL ownT rateK draw evs'.
+Proof. exact @loop_same_causes. Qed.
+Print Assumptions C21_loop_ignores_context.
+
+(** An error that is nothing in itself (not limited, not transient, not rate-limit by the tests on the object) and wraps
+    nothing ([__cause__] is None) is raised immediately — whatever error, limited-retry or transient, was being handled
+    when it was raised. *)
+Theorem C21_permanent_raised_while_handling_immediate :
+  forall (K : Type) (ownL ownT : K -> option bool) (rateK : K -> bool) (draw : Z -> Z -> Z) (evs : list (@event (exn K)))
+         o c s p k (ctx : option (exn K)) (suppress : bool),
+  loop_x ownL ownT rateK draw evs = (o, c, s) ->
+  nth_error evs p = Some (Exc (Exn k None ctx suppress)) -> (p < c)%nat ->
+  ownL k <> Some true -> ownT k <> Some true -> rateK k = false ->
+  o = Raised p /\ c = S p /\ length s = p.
+Proof. exact @loop_uncaused_immediate. Qed.
+Print Assumptions C21_permanent_raised_while_handling_immediate.
